@@ -963,6 +963,14 @@ class PyExec:
         return vals
 
     def call_name(self, st, name, n):
+        if name == "getattr" and len(n.args) in (2, 3) and isinstance(n.args[1], ast.Constant) and isinstance(n.args[1].value, str) and not n.keywords:
+            # getattr(obj, '<name>'[, default]) on an object whose contract declares that field: the attribute read (the default is never used)
+            o = self.ev(st, n.args[0])
+            if isinstance(o, PRef) and n.args[1].value in self.opt.get("fields", {}).get(o.cls, {}):
+                if len(n.args) == 3:
+                    self.ev(st, n.args[2])
+                return self.ev_Attribute(st, ast.copy_location(ast.Attribute(value=n.args[0], attr=n.args[1].value, ctx=ast.Load()), n))
+            raise OutOfSubset("getattr on %s" % o.kind)
         if name in ("any", "all") and len(n.args) == 1 and isinstance(n.args[0], ast.GeneratorExp) and not n.keywords:
             # any(<generator>) / all(<generator>): an ARBITRARY boolean - its iteration is not modelled, both answers are explored
             # (sound for what follows; stated assumption: the generator's element expressions have no side effects)
@@ -1059,6 +1067,11 @@ class PyExec:
                 # joining recorded slices: the text itself is not modelled; contracts speak about the list of slices
                 return POpaque(self.fresh("joined"))
         recv = self.ev(st, recv_node)
+        if meth in ("endswith", "startswith") and isinstance(recv, PStr) and recv.text is not None and len(n.args) == 1 and not n.keywords:
+            a0 = self.ev(st, n.args[0])
+            if isinstance(a0, PStr) and a0.text is not None:
+                return PBool(getattr(recv.text, meth)(a0.text))       # both texts are constants
+            raise OutOfSubset("str.%s with a non-constant argument" % meth)
         if isinstance(recv, PSeq) and meth == "find":
             a = self.args(st, n)
             if len(a) == 1 and isinstance(a[0], PStr) and len(a[0].codes) == 1 and recv.maxlen is not None:
